@@ -11,7 +11,7 @@ import (
 	"verif/checker/ssax"
 )
 
-func init() { Registry["C20"] = Spec{Run: runC20} }
+func init() { Registry["C20"] = Spec{Run: runC20, Packages: []string{"goproxytest", "par"}} }
 
 const gpPkg = core.ModPath + "/goproxytest"
 
